@@ -384,10 +384,17 @@ def select_m(name):
     return name.startswith("post:C18:")
 
 
+def _order_tasks():
+    # "the peer's versions precede every application message" also after a reconnect: the re-send loop keeps insertion order
+    from pyvc.runner import FuncTask
+    from . import c09
+    return [FuncTask("resend-order", c09.resend_order_task, True, "data")]
+
+
 def tasks():
     """function-level tasks plus the machine-level obligations of this property (mailbox-cluster engine)"""
     import os
     from pyvc.mrun import ClusterTask
     if not CLUSTER_READY or os.environ.get("VERIF_NO_CLUSTER"):
-        return _f_tasks()
-    return _f_tasks() + [ClusterTask("mailbox-cluster", "props.mailbox", "engine", select_m, "mailbox_history:search")]
+        return _f_tasks() + _order_tasks()
+    return _f_tasks() + _order_tasks() + [ClusterTask("mailbox-cluster", "props.mailbox", "engine", select_m, "mailbox_history:search")]
